@@ -6,7 +6,7 @@ import subprocess
 
 META = {
     "level": "proof",
-    "technique": "Coq: (1) stream-layer specifications (FlattenReader/Writer, CBC writer and reader, CTR) and their round-trip theorems for every write partition, chunk cut and read-buffer sequence; (2) the composed pipeline theorems (coq/Props/C01_pipeline.v): EntryBuilder, Archive::write_file, SolidEntryBuilder, SolidArchive and archives of them read back as the entries, metadata and contents that were written, for every configuration, write slicing and read-buffer sequence, with the cipher, compressor and KDF laws as premises; (3) executable AES-256 and Camellia-256 in Gallina (pinned by the FIPS-197 / RFC 3713 vectors) instantiate the model, which is run against libpna on whole entries and archives byte for byte; the stream state machines are run against the Rust generic code with a toy cipher; the five library writers x codecs x ciphers x KDFs are round-tripped with decoded = written as oracle",
+    "technique": "Coq: (1) stream-layer specifications (FlattenReader/Writer, CBC writer and reader, CTR) and their round-trip theorems for every write partition, chunk cut and read-buffer sequence; (2) the composed pipeline theorems (coq/Props/C01_pipeline.v): EntryBuilder, Archive::write_file, SolidEntryBuilder, SolidArchive and archives of them read back as the entries, metadata and contents that were written, for every configuration, write slicing and read-buffer sequence, with the cipher, compressor and KDF laws as premises; (3) executable AES-256 and Camellia-256 in Gallina (pinned by the FIPS-197 / RFC 3713 vectors) instantiate the model, which is run against libpna on whole entries and archives byte for byte; the stream state machines are run against the Rust generic code with a toy cipher; the five library writers x codecs x ciphers x KDFs are round-tripped with decoded = written as oracle One write of 2^32 + k bytes through Archive::write_file and SolidArchive::write_file is replayed on the implementation alone (harness hugewrite: the archive is parsed while it is written).",
     "level_text": "Proved in Coq (closed under the global context, no axioms): the stream layer is a lossless byte transport for all partitions of the payload into write() calls, all cuts of the data stream into chunks and all read() buffer sizes; on top of it, for every codec x cipher x mode configuration, every slicing of the caller's writes and every sequence of positive read-buffer sizes that reaches the end, an entry built by EntryBuilder decodes to exactly the written bytes, parsing its serialisation gives back name, kind, times, permission, xattrs, extra chunks, raw size = content length and compressed size = sum of the data chunks; archives of built entries read back as the same entries in order; the streaming Archive::write_file, SolidEntryBuilder and the streaming SolidArchive (fed call by call the way write_chunk_in feeds them) give back their inner entries and contents; the result does not depend on the slicing. Premises: the block cipher is a length-preserving permutation of 16-byte blocks with D k (E k b) = b; decompress (compress x) = x for whatever pieces the compressor emits and the compressed bytes do not depend on the write slicing; the KDF is a function of (PHSF, password). The cipher premise is discharged (coq/Props/C01_cipher.v): the executable AES-256 (FIPS-197) and Camellia-256 (RFC 3713) models are proved to be length-preserving permutations of 16-byte blocks with dec k (enc k b) = b for every key, and the main theorems are restated with them, leaving only the compressor and KDF laws as premises; it is also discharged for the toy cipher of the stream area. The model is tied to the Rust code by running both on generated cases: stream state machines through cfg(pna_verif) hooks (exact call-level agreement), and the whole pipeline through the public API with the real AES-256/Camellia-256 inside the model: with compression = store the model predicts every byte of the produced entry / archive from (key, IV, PHSF, the caller's writes) alone, with a compressor it predicts everything given the compressor's output pieces; the reader is run on the same bytes with the case's buffer sizes (right, missing and wrong password).",
     "level_note": "Trusted: Coq kernel + vm_compute; extraction and driver (cross-checked in the kernel on a sample of every run); harness/src/bin/stream.rs and pipeline.rs; refdec.rs (independent chunk parser, PHC parser, CBC/CTR loops, one-shot decompression) used to read salt/IV/compressor pieces back from what the implementation wrote. Compressors and KDFs are NOT modelled: they enter the pipeline model as oracle tables computed per case with the primitive crates (verify: PHSF -> key, decompress: stream -> bytes, compress: the observed output pieces), and the law assumed of them (independent one-shot decompression of the observed stream = the content; key recomputed independently from password and PHSF) is checked per case, not proved. That the `aes`/`camellia` crates compute AES-256/Camellia-256 is checked by agreement with the Gallina models on every encrypted case, not proved. " + _archive.NOTE,
 }
